@@ -599,9 +599,10 @@ pub fn run_c03(tier: Tier) -> Report {
 
     // ---- large pictures: more than 255 macroblocks, more than 255 macroblocks per row
     let mut cases = vec![];
-    let mut big: Vec<(u16, u16)> = vec![(352, 288), (4112, 16)];
+    // (macroblock counts beyond 2^12 need two large dimensions at once; thorough goes past 2^16)
+    let mut big: Vec<(u16, u16)> = vec![(352, 288), (4112, 16), (1024, 1040)];
     if tier.thorough() {
-        big.extend([(16, 4112), (704, 576)]);
+        big.extend([(16, 4112), (704, 576), (4096, 4096)]);
     }
     for &(w, h) in &big {
         let (mbw, mbh) = mb_grid(w, h);
